@@ -2,6 +2,7 @@ package hk
 
 import (
 	"context"
+	"errors"
 	"io"
 	"os/exec"
 	"sync"
@@ -27,6 +28,9 @@ type Scripted struct {
 	Cmd          *exec.Cmd
 	TmpDir       string
 	StartErr     error
+	// FailAfterLaunch makes Start launch the "process" (OnStart runs, the pipes stay open) and then report an error:
+	// "now" at once, "ctx" when the start context is done (a runner that waits for readiness that never comes).
+	FailAfterLaunch string
 	// Translate, when set, rewrites plugin addresses (PluginToHost).
 	Translate func(network, addr string) (string, string, error)
 	// OnStart runs in its own goroutine once Start was called.
@@ -50,8 +54,17 @@ func (s *Scripted) Start(ctx context.Context) error {
 	if s.OnStart != nil {
 		go s.OnStart(s)
 	}
+	switch s.FailAfterLaunch {
+	case "now":
+		return errLaunchedNotReady
+	case "ctx":
+		<-ctx.Done()
+		return ctx.Err()
+	}
 	return nil
 }
+
+var errLaunchedNotReady = errors.New("scripted runner: launched, but the workload never became ready")
 
 // Exit simulates the process exiting on its own.
 func (s *Scripted) Exit() {
